@@ -12,7 +12,7 @@ RULE = ("compositions over the table's elements whose full expansion has at most
         "peak list is compared, as a sorted multiset, with the model's (same threshold) and with the exact "
         "arrangement enumeration (threshold 0: equality; threshold t: every arrangement of probability >= t present, "
         "correct ratios, nothing below t); class = (number of elements, count pattern, threshold, number of peaks bucket)")
-MODULES = ["Props.C11", "Props.C11T", "Inst.C11"]
+MODULES = ["Props.C11", "Props.C11T", "Inst.C11", "Props.C11Occ"]
 COUNTS = [0, 1, 2, 3, 4, 5, 7, 8, 9, 15, 16, 17, 31, 32, 33]
 THRESH = [Fraction(0), Fraction(1, 10 ** 12), Fraction(1, 10 ** 9), Fraction(1, 10 ** 6), Fraction(1, 10 ** 3),
           Fraction(1, 100), Fraction(3, 10), Fraction(6, 10)]
